@@ -331,6 +331,34 @@ fn rt_inner<F: Flavour>(sc: &RtSc, stats: &mut Stats) -> Option<Violation> {
         }
         Err(e) => return Some(Violation::new("de-failed", format!("deserialising the same bytes a second time failed: {e}"))),
     }
+    // in-place deserialisation (serde's `deserialize_in_place`: reload into an existing object):
+    // into a fresh container, into a container that already holds this very graph, and into one
+    // that holds something else - afterwards each holds the document's graph, no more, no less
+    if sc.de_hash % 8 == 0 {
+        stats.inc("documents_deserialised_in_place");
+        let mut fresh = F::g_new();
+        let mut same = match F::g_de(&bytes, sc.wire) {
+            Ok(g) => g,
+            Err(e) => return Some(Violation::new("de-failed", format!("deserialising the same bytes a third time failed: {e}"))),
+        };
+        let mut other = F::g_new();
+        let stranger = F::node_new(gen::NO_SUCH_KEY - 1, NVal::new(0, 7777));
+        F::connect(&stranger, &stranger, EVal::new(7778));
+        F::g_insert(&mut other, stranger.clone());
+        for (what, place) in [("an empty container", &mut fresh), ("a container already holding this graph", &mut same), ("a container holding another graph", &mut other)] {
+            if let Err(e) = F::g_de_in_place(place, &bytes, sc.wire) {
+                return Some(Violation::new("de-failed", format!("deserialising in place into {what} failed: {e}")));
+            }
+            let got = canon::<F>(place);
+            if got != src {
+                let diff: Vec<String> = got.iter().filter(|(k, v)| src.get(k) != Some(v)).take(3).map(|(k, v)| format!("node {k}: {v:?}, source {:?}", src.get(k))).collect();
+                return Some(Violation::new(
+                    "round-trip-mismatch",
+                    format!("{} {:?}: deserialising in place into {what}: {} nodes, source {}; {}", sc.flavour, sc.wire, got.len(), src.len(), diff.join("; ")),
+                ));
+            }
+        }
+    }
     // the copy is a graph like any other: it round-trips again to the same graph
     let again = F::g_ser(&g2, sc.wire).and_then(|b| F::g_de(&b, sc.wire));
     match again {
